@@ -79,6 +79,17 @@ theorem nextIs_false_of_afterSp_nil {c : TC} {ts : List Tok} (hc : c ≠ .Merged
     obtain ⟨o, r, hs, _⟩ := nextIs_readSpacer hc hn
     simp [afterSp, hs] at h
 
+theorem countP_treesA_bracket (as : List Arg) : (treesA .bracket as).countP isBraceG = 0 := by
+  rw [List.countP_eq_zero]
+  intro x hx
+  have := treesA_bracket_all as x hx
+  cases x <;> simp_all [isBracketG, isBraceG]
+  rename_i k _ _
+  cases k <;> simp_all [isBracketG, isBraceG]
+
+theorem countP_treesA_brace (as : List Arg) : (treesA .brace as).countP isBraceG = as.length := by
+  rw [List.countP_eq_length.2 (fun x hx => (treesA_brace_all as x hx).1), treesA_length]
+
 section
 variable (skip0 : List Str) (f : Nat) (ih : SoundAt skip0 f)
 include ih
@@ -92,12 +103,13 @@ theorem sd_phase3 (mode : Mode) (c1 : Int) (ts2 : List Tok) (gs : List Expr) (n3
       tight a3 = true ∧ n3 = c1 - a3.length ∧
       (a3 = [] → ts3 = ts2 ∧ (nextIs .BracketBegin ts2 = false ∨ c1 = 0)) ∧
       (a3 ≠ [] → nextIs .BracketBegin ts2 = true ∧ c1 ≠ 0 ∧
-        (n3 = 0 ∨ (hdCat (afterSp ts3) != some .BracketBegin) = true)) := by
+        (n3 = 0 ∨ (hdCat (afterSp ts3) != some .BracketBegin) = true)) ∧
+      (0 ≤ c1 → 0 ≤ n3) := by
   obtain ⟨-, -, -, -, -, -, -, -, hAO, -, -, -⟩ := ih
   by_cases hn : nextIs .BracketBegin ts2 = true
   · rw [if_pos hn] at h
-    obtain ⟨a3, htk, htr, hwf, hn3, hstop, h0, _⟩ := hAO c1 mode ts2 gs n3 ts3 h hy hrep
-    refine ⟨a3, htk, htr, hwf, tight_of_nextIs (k := .bracket) hwf (by rw [htk]; exact hn), hn3, ?_, ?_⟩
+    obtain ⟨a3, htk, htr, hwf, hn3, hstop, h0, hpos⟩ := hAO c1 mode ts2 gs n3 ts3 h hy hrep
+    refine ⟨a3, htk, htr, hwf, tight_of_nextIs (k := .bracket) hwf (by rw [htk]; exact hn), hn3, ?_, ?_, hpos⟩
     · intro he
       subst he
       simp only [toksA_nil, List.nil_append] at htk
@@ -113,7 +125,7 @@ theorem sd_phase3 (mode : Mode) (c1 : Int) (ts2 : List Tok) (gs : List Expr) (n3
     simp only [Except.ok.injEq, Prod.mk.injEq] at h
     obtain ⟨⟨rfl, rfl⟩, rfl⟩ := h
     exact ⟨[], by simp, by simp, by simp [WFa], rfl, by simp, fun _ => ⟨rfl, .inl (by simpa using hn)⟩,
-      fun h => absurd rfl h⟩
+      fun h => absurd rfl h, fun h => h⟩
 
 /-- the fourth phase -/
 theorem sd_phase4 (mode : Mode) (c2 : Int) (ts3 : List Tok) (gs : List Expr) (n4 : Int) (ts4 : List Tok)
